@@ -151,6 +151,13 @@ Example ex_run_aligned :
                 length (heap _ _ st) = 5%nat.
 Proof. eexists. eexists. split; [vm_compute; reflexivity|reflexivity]. Qed.
 
+(* an array of the root's scale inserted into a converted array: converted first, then aligned *)
+Example ex_cross_scale_insert :
+  exists o b, nth_error (snd (w_run quirks_off (w_init quirks_off 0 w_R) [Scale 0 1; Insert 1 1 0])) 1 = Some (RObj o b) /\
+              flat _ (o_jd _ _ o) = [(1, 111); (1, 111); (2, 112); (3, 113); (4, 114); (2, 112); (3, 113); (4, 114)] /\
+              o_vals _ _ o = map (w_vj 1 0) (flat _ (o_jd _ _ o)).
+Proof. eexists. eexists. split; [vm_compute; reflexivity|]. split; reflexivity. Qed.
+
 Example ex_no_stale :
   no_stale tV tJ tJ_eqb w_vj w_cv w_fmt_to true (w_init Qs 0 w_R)
            [Get 0 (IInt 0); Get 0 (ISlice (Some 1) None 1); View 1; Copy 0; Iter 2].
